@@ -14,6 +14,7 @@ import (
 	"fmt"
 	"reflect"
 	"sort"
+	"strings"
 	"time"
 )
 
@@ -99,13 +100,13 @@ func zooGo(e *E, variant int) interface{} {
 	case "list":
 		switch e.M {
 		case "[]int":
-			out := make([]int, len(e.A))
+			out := make([]int, len(e.A), len(e.A)+3)
 			for i, a := range e.A {
 				out[i] = int(a.I)
 			}
 			return out
 		case "[]string":
-			out := make([]string, len(e.A))
+			out := make([]string, len(e.A), len(e.A)+3)
 			for i, a := range e.A {
 				out[i] = a.S
 			}
@@ -123,7 +124,8 @@ func zooGo(e *E, variant int) interface{} {
 			}
 			return out
 		}
-		out := make([]interface{}, len(e.A))
+		// spare capacity: an append-in-place by the engine would write into the caller's array
+		out := make([]interface{}, len(e.A), len(e.A)+3)
 		for i, a := range e.A {
 			out[i] = zooGo(a, variant)
 		}
@@ -211,6 +213,14 @@ func zooCtx(c Ctx, variant int) map[string]interface{} {
 	}
 	for _, i := range order {
 		m[c.Names[i]] = zooGo(c.Vals[i], variant)
+	}
+	// names ending in _alias share the value of their base name (the same Go object twice)
+	for _, n := range c.Names {
+		if strings.HasSuffix(n, "_alias") {
+			if base, ok := m[strings.TrimSuffix(n, "_alias")]; ok {
+				m[n] = base
+			}
+		}
 	}
 	return m
 }
